@@ -1,12 +1,213 @@
-//! stub: property C10 has no correspondence harness yet
+//! C10 — path patterns match exactly their language; partial percent-decoding.
+//! Public `actix_router` API only (`Quoter`, `ResourceDef`, `Path`).
+//!
+//! Case lines (first word selects the sub-model; strings are lower-case hex of their UTF-8
+//! bytes, `-` = empty):
+//!   q <protected> <in1> <in2> …      Quoter::new(b"", protected).requote(in_k) for every k
+use actix_router::Quoter;
+
 use super::Prop;
-use crate::common::CaseResult;
+use crate::common::{hex, unhex, CaseResult, Ctx, Rng};
+
+const RULE: &str = "q-cases: Quoter::requote on all 1- and 2-byte strings, all 3-byte strings starting with '%', \
+all strings over {%,2,F,5,/,a,x} up to length 6 (batched 64 inputs per line) for the protected sets {}, {%/+}, {/}, {+}, \
+plus seeded random byte strings (escape-dense) up to 2000 bytes and random protected sets (incl. non-ASCII => panic); \
+a q-case is non-trivial if at least one input was changed by decoding; distinct = distinct (case, output) hashes";
+
+// ---------------------------------------------------------------- Quoter
+
+/// independent reference: tokenise left to right into `%HH` escapes and plain bytes
+fn ref_decode(prot: &[u8], s: &[u8]) -> (Vec<u8>, usize) {
+    let hexv = |b: u8| -> Option<u8> {
+        match b {
+            b'0'..=b'9' => Some(b - b'0'),
+            b'a'..=b'f' => Some(b - b'a' + 10),
+            b'A'..=b'F' => Some(b - b'A' + 10),
+            _ => None,
+        }
+    };
+    let mut out = Vec::new();
+    let mut decoded = 0usize;
+    let mut i = 0;
+    while i < s.len() {
+        if s[i] == b'%' && i + 2 < s.len() {
+            if let (Some(h), Some(l)) = (hexv(s[i + 1]), hexv(s[i + 2])) {
+                let v = h * 16 + l;
+                if !prot.contains(&v) {
+                    out.push(v);
+                    decoded += 1;
+                    i += 3;
+                    continue;
+                }
+            }
+        }
+        out.push(s[i]);
+        i += 1;
+    }
+    (out, decoded)
+}
+
+fn run_q(words: &[&str]) -> CaseResult {
+    let prot = match unhex(words[1]) {
+        Some(p) => p,
+        None => return CaseResult::ok("bad-case".into()),
+    };
+    let q = match std::panic::catch_unwind(|| Quoter::new(b"", &prot)) {
+        Ok(q) => q,
+        Err(_) => {
+            // documented: "Panics if any of the protected bytes are not in the 0-127 ASCII range"
+            let mut r = CaseResult::ok("panic-new".into()).tag("q-panic-new");
+            r.nontrivial = false;
+            if prot.iter().all(|b| *b < 128) {
+                r = r.fail("quoter-new-panic", format!("Quoter::new panicked on ASCII protected set {}", hex(&prot)));
+            }
+            return r;
+        }
+    };
+    if prot.iter().any(|b| *b >= 128) {
+        return CaseResult::ok("no-panic".into())
+            .fail("quoter-new-no-panic", format!("Quoter::new accepted non-ASCII protected set {}", hex(&prot)));
+    }
+    let mut outs = Vec::new();
+    let mut res = CaseResult::ok(String::new()).tag("q");
+    let mut changed = 0usize;
+    for w in &words[2..] {
+        let Some(input) = unhex(w) else {
+            outs.push("bad-case".to_owned());
+            continue;
+        };
+        let got = q.requote(&input);
+        let (want, n) = ref_decode(&prot, &input);
+        // property text: "decodes every non-protected valid escape and nothing else"
+        match &got {
+            None => {
+                if n != 0 {
+                    res = res.fail("requote-missed", format!("in={} returned None, reference decodes {} escapes", w, n));
+                }
+            }
+            Some(out) => {
+                changed += 1;
+                if n == 0 {
+                    res = res.fail("requote-spurious", format!("in={} returned Some({}) but nothing is decodable", w, hex(out)));
+                } else if *out != want {
+                    res = res.fail("requote-value", format!("in={} got {} want {}", w, hex(out), hex(&want)));
+                }
+                // metamorphic: a protected, non-hex, non-% separator splits input and output alike
+                for &sep in prot.iter().filter(|b| **b != b'%' && !b.is_ascii_hexdigit()) {
+                    let a: Vec<Vec<u8>> = out.split(|b| *b == sep).map(|s| s.to_vec()).collect();
+                    let b: Vec<Vec<u8>> = input
+                        .split(|b| *b == sep)
+                        .map(|s| q.requote(s).unwrap_or_else(|| s.to_vec()))
+                        .collect();
+                    if a != b {
+                        res = res.fail("requote-separator", format!("in={} sep={:02x}: segments differ", w, sep));
+                    }
+                }
+            }
+        }
+        outs.push(match got {
+            None => "none".to_owned(),
+            Some(o) => format!("some:{}", hex(&o)),
+        });
+    }
+    if changed > 0 {
+        res = res.tag("q-changed");
+    }
+    res.nontrivial = changed > 0;
+    res.output = outs.join(" ");
+    res
+}
+
+fn gen_q(ctx: &Ctx, rng: &mut Rng, cases: &mut Vec<String>) {
+    let prots: [&[u8]; 4] = [b"", b"%/+", b"/", b"+"];
+    let mut inputs: Vec<Vec<u8>> = Vec::new();
+    for a in 0..=255u8 {
+        inputs.push(vec![a]);
+    }
+    for a in 0..=255u8 {
+        for b in 0..=255u8 {
+            inputs.push(vec![a, b]);
+            inputs.push(vec![b'%', a, b]);
+        }
+    }
+    const AL: &[u8] = b"%2F5/ax";
+    for len in 3..=6usize {
+        let mut idx = vec![0usize; len];
+        'outer: loop {
+            inputs.push(idx.iter().map(|&i| AL[i]).collect());
+            let mut k = len;
+            loop {
+                if k == 0 {
+                    break 'outer;
+                }
+                k -= 1;
+                idx[k] += 1;
+                if idx[k] < AL.len() {
+                    break;
+                }
+                idx[k] = 0;
+            }
+        }
+    }
+    // the exhaustive set is run with the default protected set; a quarter of it with each other set
+    for (pi, prot) in prots.iter().enumerate() {
+        for (ci, chunk) in inputs.chunks(64).enumerate() {
+            if pi != 1 && (ci + pi) % 4 != 0 {
+                continue;
+            }
+            let mut s = format!("q {}", hex(prot));
+            for i in chunk {
+                s.push(' ');
+                s.push_str(&hex(i));
+            }
+            cases.push(s);
+        }
+    }
+    // random, escape-dense
+    const DENSE: &[u8] = b"%%%%0123456789abcdefABCDEF/+ gx\x80\xff";
+    for _ in 0..ctx.budget(600) {
+        let prot: Vec<u8> = if rng.chance(1, 12) {
+            let n = rng.range(1, 4);
+            rng.bytes(n)
+        } else if rng.chance(1, 2) {
+            b"%/+".to_vec()
+        } else {
+            let n = rng.below(5);
+            (0..n).map(|_| (rng.next() % 128) as u8).collect()
+        };
+        let mut s = format!("q {}", hex(&prot));
+        let k = rng.range(1, 8);
+        for _ in 0..k {
+            let n = if rng.chance(1, 10) { rng.range(100, 2000) } else { rng.range(0, 40) };
+            let v: Vec<u8> = (0..n)
+                .map(|_| if rng.chance(1, 6) { rng.next() as u8 } else { *rng.pick(DENSE) })
+                .collect();
+            s.push(' ');
+            s.push_str(&hex(&v));
+        }
+        cases.push(s);
+    }
+}
+
+fn gen(ctx: &Ctx) -> Vec<String> {
+    let mut rng = Rng::new(ctx.seed);
+    let mut cases = Vec::new();
+    gen_q(ctx, &mut rng, &mut cases);
+    cases
+}
+
+fn run(line: &str) -> CaseResult {
+    let words: Vec<&str> = line.split_ascii_whitespace().collect();
+    match words.first().copied() {
+        Some("q") if words.len() >= 2 => run_q(&words),
+        _ => {
+            let mut r = CaseResult::ok("bad-case".into());
+            r.nontrivial = false;
+            r
+        }
+    }
+}
 
 pub fn prop() -> Prop {
-    Prop {
-        rule: "unimplemented",
-        parallel: false,
-        gen: Box::new(|_| Vec::new()),
-        run: Box::new(|_| CaseResult::ok("unimplemented".to_owned())),
-    }
+    Prop { rule: RULE, parallel: true, gen: Box::new(gen), run: Box::new(run) }
 }
